@@ -17,25 +17,25 @@ T = {
  "C19": ("Iterate with StartFrom + SkipStartFromItem where the start item is NOT stored", "caught (quick)", None),
  "C20": ("two addresses sharing their first 36 bits and first differing in bits 36..39", "MISSED: ordering triples never shared that many leading bits", "ordering class parameterised by the common-prefix length k = 0..48,100,200,255 x target in/out/self"),
  "C21": ("a Remove that hits the bin being iterated (from the callback or another goroutine): in-place removal", "machinery error at first (driver refused an address it never supplied: exit 2)", "pslicedrv logs foreign addresses as peer (99,99); caught by no_panic / iteration clauses"),
- "C22": ("depth > 0, a bin shallower than the depth mixing reachable and unreachable peers, a reachable peer of it disconnects (Disconnected skips the recomputation using BinSize)", "MISSED (quick)", "pending: builder asked to add the class"),
+ "C22": ("depth > 0, a bin shallower than the depth mixing reachable and unreachable peers, a reachable peer of it disconnects (Disconnected skips the recomputation using BinSize)", "MISSED (quick)", "exhaustive family: every vector of per-bin classes mixing reachable/unreachable peers with positive depth, then Disconnected / DisconnectForce of a reachable and an unreachable peer of every bin, judged immediately"),
  "C23": ("includeSelf, own reachability Public, every connected peer skipped: NotFound instead of WantSelf", "not a violation under the judge's reading (the statement's two 'exactly when' clauses overlap in that corner; both answers are accepted)", None),
- "C24": ("protect a set containing P, refresh to exactly the EMPTY set (dropped), P's bin oversaturated, P dials in", "MISSED (quick)", "pending: builder asked to add refresh-to-empty histories"),
+ "C24": ("protect a set containing P, refresh to exactly the EMPTY set (dropped), P's bin oversaturated, P dials in", "MISSED (quick)", "exhaustive protect-refresh family over an oversaturated topology (pairs of successive refresh sets incl. the empty one, then pick/inbound of formerly protected peers); generator variable `ever` separates formerly protected peers in the VIEW"),
  "C25": ("a shorter add late in a longer block (re-stamp dropped), query after the first block's expiry", "caught (quick)", None),
  "C26": ("Unflag arriving while the network is unavailable is dropped; later sweep blocklists a peer that had succeeded", "caught (quick)", None),
  "C27": ("alpha+1 paths to one target, then reload (list persisted before trimming)", "caught (quick)", None),
- "C28": ("a relaying node without a usable next hop falls back to discovery and forwards to a node already on the path", "MISSED (quick): relay fallback to discovery not modelled", "pending: builder asked to model the fallback"),
+ "C28": ("a relaying node without a usable next hop falls back to discovery and forwards to a node already on the path", "MISSED (quick): relay fallback to discovery not modelled", "RouteDiscovery.tla: a relay without a stored hop off its path starts a search and is parked/resumed; LinkDown/LinkUp between discovery and relay; driver ops linkdown/linkup; six phased scenarios in both tiers"),
  "C29": ("requester in the known set, target != requester, its PO requested, limit >= 2: skip list re-created", "caught (quick)", None),
  "C30": ("accept H; a stale lower L is rejected but overwrites the last-received record; replay of H is credited again", "caught (quick)", None),
  "C31": ("credit, refresh (aliases cheque and chain totals), pay with successful delivery: in-place Set", "caught (quick)", None),
- "C32": ("two concurrent FIRST operations on the same unknown peer (map lookup moved out of the lock): one update lost; -race silent", "MISSED (quick)", "pending: builder asked to make first contact a scheduled step"),
- "C33": ("a live refresh racing with an update of the same peer (store reads moved above the lock), one more update, restart", "MISSED (quick): refresh not scheduled concurrently", "pending: builder asked to schedule the refresh"),
- "C34": ("two network ids equal in the low 32 bits (upper half no longer signed)", "MISSED (quick): network id classes were small numbers", "pending: builder asked for high-bit network id classes"),
- "C35": ("token used while alive (cached), expires, RefreshKey (expiry only checked on cache miss)", "MISSED (quick): only born-expired tokens were generated", "pending: builder asked for real-time expiry histories"),
+ "C32": ("two concurrent FIRST operations on the same unknown peer (map lookup moved out of the lock): one update lost; -race silent", "MISSED (quick)", "Accounting.tla: first contact with a peer is its own step under the map mutex (RetrieveTraffic on the stub is a gate); fresh-peer schedules Credit/Credit, Credit/Notify, Reserve/Credit in quick"),
+ "C33": ("a live refresh racing with an update of the same peer (store reads moved above the lock), one more update, restart", "MISSED (quick): refresh not scheduled concurrently", "Traffic.tla: the per-peer refresh as a scheduled goroutine whose two store reads are gates (GateStore gates Get); family {refresh || update; update; restart}, all prefixes, in quick"),
+ "C34": ("two network ids equal in the low 32 bits (upper half no longer signed)", "MISSED (quick): network id classes were small numbers", "network ids carried symbolically (NetTerm(base, variant)), classes hi32, b0, b31, b32, b63 (thorough: all 64 bits) on all five acceptance paths"),
+ "C35": ("token used while alive (cached), expires, RefreshKey (expiry only checked on cache miss)", "MISSED (quick): only born-expired tokens were generated", "real-time expiry family (2 s tokens, run in parallel): use-expire-refresh, expire-enforce-refresh, refresh-alive-expire, ...; edge-of-expiry calls only judged for no_panic"),
  "C36": ("ImportKey with a keystore JSON that is self-consistent under a foreign password", "caught (quick)", None),
  "C37": ("a padded presence vector, then an exact-size one for the same root and overlay: SetBytes indexes out of range in the chunk-put goroutine", "machinery error at first (an unfinished growth pipeline was attached to C37 and did not build in the fresh worktree)", "growth pipelines are attached only when listed in tools/also_enabled.txt; then caught (quick): no_panic"),
- "C38": ("add(p) while neighbour; p stops being a neighbour with no remove in between; add(p) again: p in connected and kept", "MISSED (quick)", "pending: builder asked to vary the neighbour relation between adds"),
+ "C38": ("add(p) while neighbour; p stops being a neighbour with no remove in between; add(p) again: p in connected and kept", "MISSED (quick)", "Multicast.tla: Disconnect split into NbrDown (route table) and DisconnectEvent (queued event); complete 1-peer edge cover with the pre-state in the VIEW"),
  "C39": ("a mask with a zero byte followed by a byte with low bits set (index jumps 9 bits)", "caught (quick)", None),
- "C40": ("an unsubscription applied (in place) while a publish for the key is in flight, >= 2 subscribers", "MISSED (quick): publish modelled as atomic", "pending: builder asked to split publish into delivery steps"),
+ "C40": ("an unsubscription applied (in place) while a publish for the key is in flight, >= 2 subscribers", "MISSED (quick): publish modelled as atomic", "PubSub.tla: a publication is PubBegin/PubLoad/PubDeliver/PubNext interleaved with ApplySub/ApplyUnsub; harness Notify is a gate; clause no_duplicate_delivery"),
 }
 
 
